@@ -3,8 +3,11 @@ use crate::report::Args;
 pub mod boxes;
 pub mod c03;
 pub mod c09;
+pub mod c10;
+pub mod c11;
 pub mod c12;
 pub mod c13;
+pub mod c15;
 pub mod c16;
 pub mod c17;
 pub mod c18;
@@ -13,6 +16,7 @@ pub mod mux;
 
 pub fn run(args: &Args) -> i32 {
     match args.prop.as_str() {
+        "C15" => c15::run(args),
         "C16" => c16::run(args),
         "C01" | "C02" | "C14" => mux::run(args),
         "C17" => c17::run(args),
@@ -20,6 +24,8 @@ pub fn run(args: &Args) -> i32 {
         "C03" => c03::run(args),
         "C04" | "C05" => boxes::run(args),
         "C09" => c09::run(args),
+        "C10" => c10::run(args),
+        "C11" => c11::run(args),
         "C12" => c12::run(args),
         "C18" => c18::run(args),
         "C06" | "C07" | "C08" => hostile_props::run(args),
